@@ -359,7 +359,21 @@ def R8_binders(ctx, rid, core):
             lab = innermost_ast_arm(g)
             if lab is not None:
                 b_inl.setdefault(lab, []).append((n, g))
+    # a binder whose arm hands the recursive printer a scope of its own (built some other way than by removing names from a copy:
+    # a filtered collect) is not known to leave the names in: only an arm that passes the very scope it received on is
+    scope_params = {bn for p_, t_ in zip(inl.get("params", []), inl.get("inputs", [])) if "IndexMap<" in t_ and "SerializableValue" in t_ for bn in H.pat_binds(p_)}
+    own_scope = set()
+    for m_ in H.matches_on(inl["body"], "ast::Expr"):
+        for a_ in m_["arms"]:
+            vs_ = ["Expr::" + H.last(v) for v in H.pat_variants(a_["pat"])]
+            calls_ = [x for x in H.walk(a_["body"]) if H.kind(x) == "Call" and (x.get("def") or "").startswith(A2S) and len(x.get("args", [])) >= 2]
+            passed = {H.path_local(H.strip(x["args"][1]).get("e") or H.strip(x["args"][1])) if H.kind(H.strip(x["args"][1])) == "AddrOf" else H.path_local(H.strip(x["args"][1])) for x in calls_}
+            if calls_ and passed and not (passed & scope_params) and None not in passed:
+                own_scope |= set(vs_)
     for b in sorted(b_cfv | set(b_inl), key=str):
+        if b in b_cfv and b not in b_inl and str(b) in own_scope:
+            ctx.inst(rid, "binder=%s" % b, None, "binds names for the capture analysis: True; the arm prints its body with a scope of its own (%s) that is not built by removing names from a copy: not modelled" % "a local", H.loc(inl["body"]))
+            continue
         ctx.inst(rid, "binder=%s" % b, b in b_cfv and b in b_inl,
                  "binds names for the capture analysis: %s; removes them from the inlining scope: %s%s" % (b in b_cfv, b in b_inl, "" if b in b_inl else " (a local that shadows a captured name is overwritten by the captured value after its own definition)"), H.loc(inl["body"]))
     # the Lambda binder removes every parameter, whatever its kind
